@@ -9,7 +9,7 @@ from typing import List
 from .. import flow
 from ..cfg import cfg_of
 from ..linexpr import Env, Konst, Lin, NONE, Seq, fresh, local_edges, loop_heads, paths_from, run_steps, segments
-from ..model import AnchorError, Class, Func, UnknownIdiom, dotted, short, unparse
+from ..model import UNKNOWN, AnchorError, Class, Func, UnknownIdiom, dotted, local_names, short, unparse
 from .common import ancestors, enclosing_map, implied, strip_await, walk_self
 
 WSGI = 'falcon.stream.BoundedStream'
@@ -66,15 +66,90 @@ class Verdicts:
 # abstract execution hooks shared by R4/R5
 # ---------------------------------------------------------------------------
 
-class _Env(Env):
-    """Env that also models the clamping of a prefix slice: `len(x[:k]) == min(k, len(x))` for k >= 0
-    (the plain evaluator only reads `x[:k]` when `k <= len(x)` is among the path facts), so that a chunk that is
-    truncated to the budget BEFORE its length is taken is read as clamped."""
+class DelEnv(Env):
+    """Env that reads `del <local>` (k1-c07-3: `event = None` written as `del event` at the end of a loop body): the
+    name is unbound from there on, which is a no-op for the linear evaluation as long as the name is not read again.
+    A later read would be a NameError at run time; here it yields a TAINTED symbol, so that nothing is concluded from it."""
 
     def fork(self):
         e = Env.fork(self)
-        e.__class__ = _Env
+        e.__class__ = self.__class__
         return e
+
+    def exec(self, s):
+        if isinstance(s, ast.Delete) and all(isinstance(t, ast.Name) for t in s.targets):
+            for t in s.targets:
+                for k in [k for k in self.vars if k.startswith(t.id + '.')]:
+                    del self.vars[k]
+                self.vars[t.id] = Lin.atom(fresh('deleted:%s' % t.id, tainted=True))
+            return
+        Env.exec(self, s)
+
+
+# Call nodes `L()` where the local L is the receive callable (see receive_aliases); keyed by id(), the node is kept so
+# that an id is never reused by another node
+_RECEIVE_ALIAS_CALLS = {}
+
+
+def receive_aliases(f) -> set:
+    """Locals of f that ARE `self._receive`: bound exactly once in f, by the plain assignment `L = self._receive`, and
+    by nothing else (not a parameter, no second store, del, loop / with / except target, walrus, global / nonlocal).
+    k1-c07-2: `receive = self._receive` before the loop and `await receive()` inside."""
+    params = set(f.params())
+    cands, stores = {}, {}
+    for x in ast.walk(f.node):
+        if isinstance(x, ast.Name) and isinstance(x.ctx, (ast.Store, ast.Del)):
+            stores[x.id] = stores.get(x.id, 0) + 1
+        elif isinstance(x, (ast.Global, ast.Nonlocal)):
+            for nm in x.names:
+                stores[nm] = stores.get(nm, 0) + 2
+        elif isinstance(x, ast.ExceptHandler) and x.name:
+            stores[x.name] = stores.get(x.name, 0) + 1
+        elif isinstance(x, (ast.FunctionDef, ast.AsyncFunctionDef, ast.ClassDef)) and x is not f.node:
+            stores[x.name] = stores.get(x.name, 0) + 2
+        if isinstance(x, (ast.Assign, ast.AnnAssign)) and getattr(x, 'value', None) is not None and dotted(x.value) == RECEIVE:
+            tg = x.targets if isinstance(x, ast.Assign) else [x.target]
+            if len(tg) == 1 and isinstance(tg[0], ast.Name):
+                cands[tg[0].id] = x
+    return {nm for nm in cands if stores.get(nm) == 1 and nm not in params}
+
+
+def note_receive_aliases(f):
+    al = receive_aliases(f)
+    if al:
+        for c in ast.walk(f.node):
+            if isinstance(c, ast.Call) and isinstance(c.func, ast.Name) and c.func.id in al:
+                _RECEIVE_ALIAS_CALLS[id(c)] = c
+    return al
+
+
+def is_receive_call(c) -> bool:
+    """`self._receive()` or `L()` for a local L that is self._receive (note_receive_aliases of the function ran)."""
+    return isinstance(c, ast.Call) and (dotted(c.func) == RECEIVE or _RECEIVE_ALIAS_CALLS.get(id(c)) is c)
+
+
+def _has_receive_call(h: Func) -> bool:
+    note_receive_aliases(h)
+    return any(is_receive_call(c) for c in walk_self(h.node))
+
+
+def seed_module_ints(p, f, env):
+    """Bind the module-level integer constants f reads (names that are not locals of f and fold to an int) to their
+    values, so that `self._bytes_remaining = _UNKNOWN_LENGTH` reads like `= 2**63` (k2-c07-3: a literal hoisted into a
+    module constant).  Returns env."""
+    loc = set(local_names(f)) | set(f.params())
+    for x in walk_self(f.node):
+        if isinstance(x, ast.Name) and isinstance(x.ctx, ast.Load) and x.id not in loc and x.id not in env.vars:
+            val = p.fold(f.module, x, f.cls, f)
+            if val is not UNKNOWN and isinstance(val, int) and not isinstance(val, bool):
+                env.vars[x.id] = Lin.const(val)
+    return env
+
+
+class _Env(DelEnv):
+    """Env that also models the clamping of a prefix slice: `len(x[:k]) == min(k, len(x))` for k >= 0
+    (the plain evaluator only reads `x[:k]` when `k <= len(x)` is among the path facts), so that a chunk that is
+    truncated to the budget BEFORE its length is taken is read as clamped."""
 
     def _subscript(self, e):
         s = e.slice
@@ -97,7 +172,7 @@ def _const_key(e):
 def _on_call(env, call):
     f = call.func
     d = dotted(f)
-    if d == RECEIVE:
+    if is_receive_call(call):
         ev = fresh('event')
         env.ghost['event'] = ev
         env.kind[('sub', ev, 'body')] = 'seq'
@@ -151,8 +226,9 @@ def _handed(env):
 
 
 def _receive_loops(f):
+    note_receive_aliases(f)
     loops = [w for w in walk_self(f.node) if isinstance(w, ast.While)
-             and any(isinstance(c, ast.Call) and dotted(c.func) == RECEIVE for s in w.body for c in walk_self(s))]
+             and any(is_receive_call(c) for s in w.body for c in walk_self(s))]
     if not loops:
         raise AnchorError('%s: no `while` loop around `await %s()`' % (f.qual, RECEIVE))
     return loops
@@ -179,7 +255,7 @@ def asgi_loops(run, v: Verdicts, f, mode):
     cfg = cfg_of(f, p)
     run.use_cfg(cfg)
     heads = loop_heads(cfg)
-    inl = Inliner(p, p.cls(ASGI), lambda h: not any(isinstance(c, ast.Call) and dotted(c.func) == RECEIVE for c in walk_self(h.node)))
+    inl = Inliner(p, p.cls(ASGI), lambda h: not _has_receive_call(h))
     for lp in _receive_loops(f):
         hs = [i for i in cfg.nodes_for(lp) if cfg.node(i).kind == 'test' and cfg.node(i).ast is lp.test]
         if len(hs) != 1:
@@ -209,7 +285,7 @@ def asgi_loops(run, v: Verdicts, f, mode):
                 raise UnknownIdiom('%s: nested loop inside the receive loop' % f.qual)
             if _spurious_lookup_error(cfg, steps):
                 continue
-            env = _Env(_on_call_inl)
+            env = seed_module_ints(p, f, _Env(_on_call_inl))
             rem0 = env.declare(BUDGET, 'nat')
             pos0 = env.declare(POS, 'nat')
             for e in run_steps_inl(env, cfg, steps, inl, on_node=_tracker(counter)):
@@ -502,6 +578,35 @@ def _normalised_after(cfg, head) -> bool:
     return bool(starts) and flow.find_path(cfg, starts, [cfg.exit], avoid_nodes=zero, edge_filter=flow.no_exc) is None
 
 
+def _buffer_at_yield(v: Verdicts, f, e, yval, buf_k, ystmt, wit):
+    """A chunk that is served FROM the receive buffer has left the buffer when it is yielded.  The generator is suspended at
+    the `yield`; a consumer that stops iterating never resumes it, so a `self._buffer = b''` placed behind the `yield` is
+    lost and the next read()/readall()/exhaust() delivers (or counts) the same bytes again.
+    Decided on the state at the suspension point: the buffer still has the value it had at the start of the segment AND the
+    yielded value is that very value (directly, through a local, or a copy / full slice of it: its length is a form over
+    len(buffer)) AND no fact on the path says the buffer is empty.
+    Witness: `async for chunk in req.stream: break` then `await req.stream.read()`: the first chunk is returned twice."""
+    what = 'a chunk served from the receive buffer is no longer in the buffer when it is yielded'
+    blen = ('len', _BUF_ATOM)
+    untouched = isinstance(buf_k, Lin) and Env.same(buf_k, Lin.atom(_BUF_ATOM))
+    if isinstance(yval, Lin):
+        from_buffer = yval.lone() == _BUF_ATOM
+    elif isinstance(yval, Seq):
+        from_buffer = blen in yval.length.atoms()
+    else:
+        from_buffer = False
+    if not from_buffer:
+        return
+    if not untouched or e.prove_eq(Lin.atom(blen), 0):
+        v.note(f, 'buffer at yield', what, True)
+        return
+    v.note(f, 'buffer at yield', what, False, ystmt,
+           'at `%s` %s still holds the very bytes that are being handed out: the statement that clears it is only reached when the '
+           'generator is resumed' % (ystmt, BUFFER), wit,
+           'async for chunk in req.stream: break -- the generator is closed at the yield with the buffer intact; a following '
+           'read()/readall() returns the first chunk again and exhaust() counts it twice (tell() > body length, eof stays False)')
+
+
 def asgi_positions(run, v: Verdicts, f):
     """_pos advances by exactly the length of what each segment yields / returns -- and, in a generator, the accounting
     for a chunk is complete BEFORE the chunk is yielded: when the consumer holds chunk k (the generator is suspended at
@@ -510,6 +615,7 @@ def asgi_positions(run, v: Verdicts, f):
     generator is lost on `break` / `aclose()`.
     Witness: `async for chunk in req.stream: assert req.stream.tell() == seen + len(chunk)`; `break` after the first chunk."""
     cfg = cfg_of(f, run.project)
+    note_receive_aliases(f)
     produces = any(isinstance(x, (ast.Yield, ast.YieldFrom)) or (isinstance(x, ast.Return) and x.value is not None) for x in walk_self(f.node))
     if not produces:
         return
@@ -521,11 +627,11 @@ def asgi_positions(run, v: Verdicts, f):
         k = sum(1 for kind, _v, _n in env.log if kind == 'yield')
         if k > env.ghost.get('ysnap_n', 0):
             env.ghost['ysnap_n'] = k
-            env.ghost['ysnaps'] = env.ghost.get('ysnaps', ()) + ((k, env.eval(_POS_E), env.eval(_BUDGET_E)),)
+            env.ghost['ysnaps'] = env.ghost.get('ysnaps', ()) + ((k, env.eval(_POS_E), env.eval(_BUDGET_E), env.eval(_BUF_E)),)
         track(env, n, label)
 
     for start, steps, end in segments(cfg):
-        env = _Env(_on_call)
+        env = seed_module_ints(run.project, f, _Env(_on_call))
         pos0 = env.declare(POS, 'nat')
         rem0 = env.declare(BUDGET, 'nat')
         for e in run_steps(env, cfg, steps, on_node):
@@ -533,12 +639,14 @@ def asgi_positions(run, v: Verdicts, f):
                 continue        # delegation: the callee accounts for itself
             out, last = Lin.const(0), None
             yields = []         # (running total of the bytes handed out, yield node)
+            yvals = []          # the values yielded
             for kind, val, node in e.log:
                 if kind == 'yield' or (kind == 'return' and val is not NONE):
                     out = out + e.length(val, short(node, 30))
                     last = node
                     if kind == 'yield':
                         yields.append((out, node))
+                        yvals.append(val)
             dpos = e.eval(_POS_E) - pos0
             ok = isinstance(dpos, Lin) and e.prove_eq(dpos, out)
             cons = e.ghost.get('last_pos', last if last is not None else f.name)
@@ -554,11 +662,12 @@ def asgi_positions(run, v: Verdicts, f):
             # ---- the state at each suspension point
             snaps = list(e.ghost.get('ysnaps', ()))
             if len(snaps) < len(yields):
-                snaps.append((len(yields), e.eval(_POS_E), e.eval(_BUDGET_E)))     # suspended at the end of the segment
+                snaps.append((len(yields), e.eval(_POS_E), e.eval(_BUDGET_E), e.eval(_BUF_E)))     # suspended at the end of the segment
             received = e.ghost.get('event') is not None
-            for (k, pos_k, rem_k) in snaps:
+            for (k, pos_k, rem_k, buf_k) in snaps:
                 out_k, ynode = yields[k - 1]
                 ystmt = 'yield ' + unparse(ynode.value) if getattr(ynode, 'value', None) is not None else unparse(ynode)
+                _buffer_at_yield(v, f, e, yvals[k - 1], buf_k, ystmt, wit)
                 what = 'the position accounts for a chunk before the chunk is yielded (tell() is right while the consumer holds it and after it leaves the loop)'
                 if not isinstance(pos_k, Lin) or (pos_k - pos0 - out_k).tainted():
                     v.unknown('%s: position at `%s` not understood: %s' % (f.qual, ystmt, '; '.join(e.notes[:2])))
@@ -599,12 +708,17 @@ def asgi_positions(run, v: Verdicts, f):
 _CATCHES_KEYERROR = {None, 'KeyError', 'LookupError', 'Exception', 'BaseException'}
 
 
-def _in_test(t, key, base_txt, positive=True):
-    """Does the truth of test `t` imply `key in base`?"""
-    if isinstance(t, ast.Compare) and len(t.ops) == 1 and isinstance(t.ops[0], ast.In):
-        return _const_key(t.left) == key and unparse(t.comparators[0]) == base_txt
-    if isinstance(t, ast.BoolOp) and isinstance(t.op, ast.And):
-        return any(_in_test(x, key, base_txt) for x in t.values)
+def _in_test(t, key, base_txt, truth=True):
+    """Does test `t` coming out `truth` imply `key in base`?  Read: `key in base` / `key not in base`, `not`, a
+    conjunction that came out true (every operand is true), a disjunction that came out false (every operand is false).
+    (k2-c07-1: `'more_body' not in event or not event['more_body']` -- the subscript is evaluated only when the first
+    operand is false.)"""
+    if isinstance(t, ast.UnaryOp) and isinstance(t.op, ast.Not):
+        return _in_test(t.operand, key, base_txt, not truth)
+    if isinstance(t, ast.Compare) and len(t.ops) == 1 and isinstance(t.ops[0], (ast.In, ast.NotIn)):
+        return isinstance(t.ops[0], ast.In) == truth and _const_key(t.left) == key and unparse(t.comparators[0]) == base_txt
+    if isinstance(t, ast.BoolOp) and isinstance(t.op, ast.And) == truth:
+        return any(_in_test(x, key, base_txt, truth) for x in t.values)
     return False
 
 
@@ -621,13 +735,18 @@ def asgi_keys(run, v: Verdicts, f):
                     names = [None] if h.type is None else [dotted(t) for t in (h.type.elts if isinstance(h.type, ast.Tuple) else [h.type])]
                     if any(n in _CATCHES_KEYERROR for n in names):
                         ok = True
-            elif isinstance(a, ast.BoolOp) and isinstance(a.op, ast.And):
+            elif isinstance(a, ast.BoolOp):
+                # an operand is evaluated only when every earlier one was true (`and`) / false (`or`)
                 idx = [i for i, x in enumerate(a.values) if x is child]
-                if idx and any(_in_test(x, key, base) for x in a.values[:idx[0]]):
+                if idx and any(_in_test(x, key, base, isinstance(a.op, ast.And)) for x in a.values[:idx[0]]):
                     ok = True
-            elif isinstance(a, (ast.If, ast.While)) and any(child is s for s in a.body) and _in_test(a.test, key, base):
+            elif isinstance(a, (ast.If, ast.While)) and any(child is s for s in a.body) and _in_test(a.test, key, base, True):
                 ok = True
-            elif isinstance(a, ast.IfExp) and child is a.body and _in_test(a.test, key, base):
+            elif isinstance(a, ast.If) and any(child is s for s in a.orelse) and _in_test(a.test, key, base, False):
+                ok = True
+            elif isinstance(a, ast.IfExp) and child is a.body and _in_test(a.test, key, base, True):
+                ok = True
+            elif isinstance(a, ast.IfExp) and child is a.orelse and _in_test(a.test, key, base, False):
                 ok = True
             child = a
         v.note(f, 'optional key %s @%s' % (key, unparse(sub)), "the optional event key '%s' is read only under KeyError protection or a membership test" % key,
@@ -791,7 +910,7 @@ def asgi_constructor(run, v: Verdicts):
     for steps, end in paths_from(cfg, cfg.entry, loop_heads(cfg), local_edges(cfg)):
         if end != cfg.exit:
             raise UnknownIdiom('%s.__init__: loops are not expected' % ASGI)
-        env = Env(_on_call)
+        env = seed_module_ints(p, f, DelEnv(_on_call))
         cl = env.var('content_length')
         env.add_le(0, cl)
         fe = ('v', 'first_event')
@@ -832,7 +951,7 @@ def asgi_initial_position(run, v: Verdicts):
     for steps, end in paths_from(cfg, cfg.entry, loop_heads(cfg), local_edges(cfg)):
         if end != cfg.exit:
             raise UnknownIdiom('%s.__init__: loops are not expected' % ASGI)
-        env = Env(_on_call)
+        env = seed_module_ints(p, f, DelEnv(_on_call))
         env.kind[('sub', ('v', 'first_event'), 'body')] = 'seq'
         for e in run_steps(env, cfg, steps, _tracker(None)):
             pos = e.eval(_POS_E)
@@ -874,15 +993,16 @@ def asgi_drained(run, v: Verdicts, f):
     p = run.project
     require_attrs(p, ASGI, [BUDGET, POS, RECEIVE, BUFFER])
     cfg = cfg_of(f, p)
+    note_receive_aliases(f)
     run.use_cfg(cfg)
-    inl = Inliner(p, p.cls(ASGI), lambda h: not any(isinstance(c, ast.Call) and dotted(c.func) == RECEIVE for c in walk_self(h.node)))
+    inl = Inliner(p, p.cls(ASGI), lambda h: not _has_receive_call(h))
     heads = set(loop_heads(cfg))
     segs = [(s, st, e) for (s, st, e) in segments(cfg) if e in heads or e == cfg.exit]
     produces = any(isinstance(x, (ast.Yield, ast.YieldFrom)) or (isinstance(x, ast.Return) and x.value is not None) for x in walk_self(f.node))
     blen0 = Lin.atom(('len', _BUF_ATOM))
 
     def execute(start, steps, nat, inv):
-        env = _Env(_on_call_inl)
+        env = seed_module_ints(p, f, _Env(_on_call_inl))
         env.kind[_BUF_ATOM] = 'seq'
         env.declare(POS, 'nat')
         if start == cfg.entry or nat:
@@ -1025,7 +1145,7 @@ def _memo(run, f, wrapper):
     for case in ('set', 'unset'):
         ok, n = True, 0
         for steps, end in paths_from(cfg, cfg.entry, loop_heads(cfg), local_edges(cfg)):
-            env = Env(on_call)
+            env = DelEnv(on_call)
             m = env.var(memo).lone()
             env.is_none[m] = case == 'unset'
             env.truth[m] = case == 'set'
